@@ -1697,12 +1697,12 @@ Proof. destruct l; [congruence|reflexivity]. Qed.
 
 Theorem blend_spec : forall e sc s base defaults deltas nv n,
   stk s = base ++ defaults ++ deltas ++ [nv] ->
-  try_as_u16 nv = Some n -> len defaults = n -> len deltas = n * len sc -> 0 < len sc ->
+  try_as_u16 nv = Some n -> len defaults = n -> len deltas = n * len sc ->
   len base + n <= max_stack e ->
   blend e sc s =
   COk (set_stk s (base ++ blend_vals (Z.to_nat (len sc)) sc defaults deltas)).
 Proof.
-  intros e sc s base defaults deltas nv n Hstk Hn Hd Hdl Hk Hroom.
+  intros e sc s base defaults deltas nv n Hstk Hn Hd Hdl Hroom.
   unfold blend.
   assert (Hpop : pop s = COk (nv, set_stk s (base ++ defaults ++ deltas))).
   { replace s with (set_stk (set_stk s (base ++ defaults ++ deltas))
@@ -1719,7 +1719,6 @@ Proof.
   rewrite !len_app, Hd, Hdl.
   destruct (len base + (n + n * len sc) <? n * (len sc + 1)) eqn:E1; [lia|].
   destruct (CFF2_MAX_OPERANDS <? n) eqn:E2; [lia|].
-  destruct (len sc =? 0) eqn:E3; [lia|].
   replace (len base + (n + n * len sc) - n * (len sc + 1)) with (len base) by lia.
   rewrite take_app_len, drop_app_len. rewrite <- Hd. rewrite take_app_len, drop_app_len.
   rewrite push_all_ok.
@@ -1728,6 +1727,31 @@ Proof.
     replace (len (blend_vals (Z.to_nat (len sc)) sc defaults deltas)) with (len defaults)
       by (unfold len; rewrite blend_vals_length; reflexivity).
     lia.
+Qed.
+
+(* k = 0: an ItemVariationData that lists no regions.  There are no deltas; the n defaults stay. *)
+Lemma blend_vals_no_scalars : forall defaults k rest, blend_vals k [] defaults rest = defaults.
+Proof.
+  induction defaults as [|d ds IH]; intros k rest; [reflexivity|].
+  cbn [blend_vals]. destruct rest as [|r0 rest'].
+  - rewrite IH. reflexivity.
+  - rewrite IH. cbn [dot]. f_equal. lia.
+Qed.
+
+Theorem blend_no_regions : forall e s base defaults nv,
+  stk s = base ++ defaults ++ [nv] ->
+  try_as_u16 nv = Some (len defaults) ->
+  len base + len defaults <= max_stack e ->
+  blend e [] s = COk (set_stk s (base ++ defaults)).
+Proof.
+  intros e s base defaults nv Hstk Hn Hroom.
+  rewrite (blend_spec e [] s base defaults [] nv (len defaults)).
+  - rewrite blend_vals_no_scalars. reflexivity.
+  - exact Hstk.
+  - exact Hn.
+  - reflexivity.
+  - change (len (@nil (option Z))) with 0. change (len (@nil Z)) with 0. lia.
+  - exact Hroom.
 Qed.
 
 (* with 16.16 operands (multiples of 2^-16) the weighted sum is exact: no rounding in `dot` *)
